@@ -483,6 +483,11 @@ def ppo_cases(draw):
     mode = "unchanged" if kind == "gauss_high" else draw(
         st.sampled_from(["unchanged", "unchanged", "mixed", "all_clipped"]))
     case.update(draw(_ppo_batch(n, mode)))
+    for r in case["regions"]:
+        # logits / residuals of size 1e2: the float32 allowance on the ratio (see run_ppo) is about 0.5-1 %; ratios
+        # 0.3 % from a clip boundary would only be excluded as side-ambiguous
+        if r[2] == 0.003:
+            r[2] = 0.05
     case["x"] = x
     return case
 
